@@ -132,11 +132,26 @@ template <typename W> static Res apply_write(W& w, int kind, uint64_t n, int wid
   }
 }
 struct WCfg { size_t limit, inner_cap; int64_t fail_at; nop::ErrorStatus err; };
+struct Done { int kind; uint64_t n; int w; uint8_t val; Res exp; };
+template <typename W, typename GetBytes>
+static void c16_replay(const char* wname_, W& shipped, GetBytes get, const WCfg& cfg, const std::vector<Done>& done, const LogWriter& twin, const std::vector<IoOp>& seq, const std::string& cd_type, int64_t case_idx, const std::string& stage) {
+  nop::BoundedWriter<W> b(&shipped, cfg.limit);
+  for (size_t i = 0; i < done.size(); i++) { const Done& d = done[i];
+    Res got = d.kind == OP_PADDING ? from(b.WritePadding(d.val)) : apply_write(b, d.kind, d.n, d.w, d.val);
+    rep().count("c16_writer_calls_on_shipped_writers");
+    if (got.ok != d.exp.ok || (!got.ok && got.err != d.exp.err)) { std::vector<IoOp> sq(seq.begin(), seq.begin() + i + 1);
+      rep().violation(fmt("C16:writer:shipped:status:%s:%s", wname_, kWName[d.kind]), fmt("BoundedWriter<%s>: %s(%" PRIu64 ") returned '%s', the budget model says '%s'; limit %zu; calls %s", wname_, kWName[d.kind], d.n, got.ok ? "ok" : errname(got.err), d.exp.ok ? "ok" : errname(d.exp.err), cfg.limit, seq_str(sq, true).c_str()),
+                      case_desc(cd_type, case_idx, stage, J().raw("ops", seq_str(sq, true)).u("limit", cfg.limit).s("writer", wname_).str())); return; } }
+  Bytes b2 = get();
+  if (b2 != twin.data) rep().violation(fmt("C16:writer:shipped:bytes:%s", wname_), fmt("BoundedWriter<%s> put %s on the medium, the same calls made directly give %s (padding value / block contents); limit %zu; calls %s", wname_, hex(b2, 32).c_str(), hex(twin.data, 32).c_str(), cfg.limit, seq_str(seq, true).c_str()),
+                      case_desc(cd_type, case_idx, stage, J().raw("ops", seq_str(seq, true)).u("limit", cfg.limit).s("writer", wname_).str()));
+}
 static void c16_writer_seq(const WCfg& cfg, const std::vector<IoOp>& seq, const std::string& cd_type, int64_t case_idx, const std::string& stage) {
   LogWriter inner, twin; inner.capacity = twin.capacity = cfg.inner_cap;
   inner.fault.fail_at = twin.fault.fail_at = cfg.fail_at; inner.fault.error = twin.fault.error = cfg.err;
   nop::BoundedWriter<LogWriter> bw(&inner, cfg.limit);
   uint64_t used = 0;
+  std::vector<Done> done;   // the resolved calls, replayed afterwards on BoundedWriter over the shipped writers
   auto viol = [&](const std::string& key, const std::string& what, size_t upto) {
     std::vector<IoOp> s(seq.begin(), seq.begin() + upto + 1);
     rep().violation("C16:writer:" + key, fmt("%s; limit %zu, wrapped writer capacity %zu%s; calls %s", what.c_str(), cfg.limit, cfg.inner_cap, cfg.fail_at >= 0 ? fmt(", its call #%" PRId64 " fails with '%s'", cfg.fail_at, errname(cfg.err)).c_str() : "", seq_str(s, true).c_str()),
@@ -159,6 +174,7 @@ static void c16_writer_seq(const WCfg& cfg, const std::vector<IoOp>& seq, const 
     }
     size_t calls_before = inner.calls.size();
     Res got = o.kind == OP_PADDING ? from(bw.WritePadding(val)) : apply_write(bw, o.kind, n, o.w, val);
+    done.push_back(Done{o.kind, n, o.w, val, exp});
     rep().count("c16_writer_calls"); if (!forwarded) rep().count("c16_writer_calls_crossing_the_limit"); if (n >= (1ull << 32)) rep().count("c16_writer_calls_with_huge_sizes");
     if (!forwarded && inner.calls.size() != calls_before) { viol("crossing-call-touched-wrapped-writer:" + std::string(kWName[o.kind]), fmt("%s of %" PRIu64 " bytes crosses the limit (budget left %" PRIu64 ") but reached the wrapped writer", kWName[o.kind], o.kind == OP_ENSURE ? n : nbytes, rem), i); return; }
     if (got.ok != exp.ok || (!got.ok && got.err != exp.err)) { viol(fmt("status:%s:%s", kWName[o.kind], forwarded ? "within-limit" : "crossing"), fmt("%s(%" PRIu64 ") returned '%s', expected '%s'", kWName[o.kind], n, got.ok ? "ok" : errname(got.err), exp.ok ? "ok" : errname(exp.err)), i); return; }
@@ -167,6 +183,12 @@ static void c16_writer_seq(const WCfg& cfg, const std::vector<IoOp>& seq, const 
     if (bw.size() != used || bw.capacity() != cfg.limit) { viol(fmt("budget-accounting:%s:%s", kWName[o.kind], got.ok ? "ok" : "failed"), fmt("size() = %zu, model says %" PRIu64, bw.size(), used), i); return; }
     if (o.kind == OP_PADDING && got.ok && inner.data.size() != cfg.limit) { viol("padding-position", fmt("after WritePadding the wrapped writer holds %zu bytes, the limit is %zu", inner.data.size(), cfg.limit), i); return; }
     if (!got.ok && forwarded && cfg.fail_at < 0 && o.kind != OP_ENSURE) break;
+  }
+  // replay on the shipped writers (only where the wrapped writer never refuses on its own: its capacity covers the limit, no injected fault)
+  if (cfg.fail_at < 0 && cfg.inner_cap >= cfg.limit && cfg.limit <= 4096 && (case_idx % 4 == 0 || args().replay())) {
+    { nop::StreamWriter<std::stringstream> sw; c16_replay("StreamWriter", sw, [&]() { std::string o = sw.stream().str(); return Bytes(o.begin(), o.end()); }, cfg, done, twin, seq, cd_type, case_idx, stage); }
+    { ExactBuf eb(cfg.limit); nop::PedanticBufferWriter pw(eb.p, cfg.limit); c16_replay("PedanticBufferWriter", pw, [&]() { return eb.vec(pw.size()); }, cfg, done, twin, seq, cd_type, case_idx, stage); }
+    { ExactBuf eb(cfg.limit); nop::BufferWriter w2(eb.p, cfg.limit); c16_replay("BufferWriter", w2, [&]() { return eb.vec(w2.size()); }, cfg, done, twin, seq, cd_type, case_idx, stage); }
   }
 }
 
@@ -314,13 +336,16 @@ template <typename W> static Res apply_write_c17(W& w, const IoOp& o, uint64_t n
 
 static void c17_writer_seq(size_t cap, const std::vector<IoOp>& seq, const char* type, int64_t case_idx, const std::string& stage) {
   bool has_skip = false; for (auto& o : seq) if (o.kind == OP_SKIP) has_skip = true;
-  for (int wk = 0; wk < W_COUNT; wk++) {
+  for (int wk0 = 0; wk0 < W_COUNT + 2; wk0++) {
+    // two extra passes: BoundedWriter over a checked buffer writer whose own capacity (cap) is tighter than the bound (cap + 2): the effective capacity is the wrapped writer's
+    const bool inner_tight = wk0 >= W_COUNT; const int wk = inner_tight ? (wk0 == W_COUNT ? W_B_PEDANTIC : W_B_CONSTEXPR) : wk0;
     if (wk == W_LOG || wk == W_B_LOG) continue;
     int in = w_inner(wk); bool is_fd = in == W_FD; if (is_fd && has_skip) continue;
     bool unbounded = (wk == W_STREAM || wk == W_FD);
     bool checked = wk == W_PEDANTIC || wk == W_CONSTEXPR || w_is_bounded(wk);
     Sink s;
-    if (w_is_bounded(wk)) s.init(wk, cap + 80, cap, (case_idx & 1) != 0); else s.init(wk, cap, SIZE_MAX, (case_idx & 1) != 0);
+    if (inner_tight) { s.init(wk, cap, cap + 2, false); rep().count("c17_bounded_writer_over_tighter_writer_sequences"); }
+    else if (w_is_bounded(wk)) s.init(wk, cap + 80, cap, (case_idx & 1) != 0); else s.init(wk, cap, SIZE_MAX, (case_idx & 1) != 0);
     Bytes model;
     for (size_t i = 0; i < seq.size(); i++) {
       const IoOp& o = seq[i]; uint64_t rem = unbounded ? 24 : cap - model.size();
@@ -342,7 +367,8 @@ static void c17_writer_seq(size_t cap, const std::vector<IoOp>& seq, const char*
         continue;
       }
       if (got.ok != fits) { viol(fits ? "refuses-fitting-call" : "accepts-call-beyond-capacity", fmt("%s of %" PRIu64 " bytes with %" PRIu64 " bytes of capacity left returned %s", kWName[o.kind], nbytes, rem, got.ok ? "ok" : errname(got.err))); break; }
-      if (!got.ok) { if (got.err != nop::ErrorStatus::WriteLimitReached) viol("category", fmt("refusal reported '%s'", errname(got.err))); break; }
+      // a refused call leaves no trace: the sequence goes on, and later calls that fit must still be accepted ("refuse exactly the calls that would exceed their capacity")
+      if (!got.ok) { if (got.err != nop::ErrorStatus::WriteLimitReached) { viol("category", fmt("refusal reported '%s'", errname(got.err))); break; } rep().count("c17_writer_calls_after_a_refusal_follow"); continue; }
       if (o.kind == OP_READ1) model.push_back(val); else if (o.kind == OP_SKIP) model.insert(model.end(), (size_t)n, val); else for (size_t k = 0; k < nbytes; k++) model.push_back((uint8_t)(val + k * 13));
       Bytes b = s.bytes();
       if (b != model) { viol(fmt("bytes:%s", kWName[o.kind]), fmt("byte stream %s differs from the model %s", hex(b, 40).c_str(), hex(model, 40).c_str())); break; }
